@@ -22,11 +22,12 @@ inductive Act where
   | broadcastTimeout -- HTLC-timeout claim of the outbound HTLC handed to the broadcaster
   | broadcastUp      -- holder commitment (+ HTLC-success) of the upstream channel handed to the broadcaster
   | chanClosed       -- downstream channel force-closed by an `Err` exit of do_best_block_updated
+  | interceptTimeout -- (round 5) the HTLC, still held as an INTERCEPTED forward, given up by do_chain_event's intercepted-HTLC sweep
   deriving DecidableEq, Repr, Inhabited
 
 def Act.name : Act → String
   | .cellTimeout => "cell" | .failBack => "fail" | .claimOffchain => "claim" | .broadcastDown => "down"
-  | .broadcastTimeout => "timeout" | .broadcastUp => "up" | .chanClosed => "closed"
+  | .broadcastTimeout => "timeout" | .broadcastUp => "up" | .chanClosed => "closed" | .interceptTimeout => "icpt"
 
 inductive Up where | pending | claimed | failed
   deriving DecidableEq, Repr, Inhabited
@@ -46,6 +47,7 @@ structure St where
   up : Up := .pending
   upResponsive : Bool := true      -- the upstream peer completes an update dance at once
   upBroadcast : Option Nat := none
+  intercepted : Bool := false      -- (round 5) the forward is held in pending_intercepted_htlcs (HTLCIntercepted not yet answered)
   deriving Repr, Inhabited
 
 inductive Ev where
@@ -56,6 +58,8 @@ inductive Ev where
   | preimage
   /-- the holding cell is freed: the HTLC enters a downstream commitment -/
   | downCommitted
+  /-- (round 5) forward_intercepted_htlc: the held forward is released towards the downstream channel (its holding cell) -/
+  | released
   deriving Repr, Inhabited
 
 /-- upstream fail-back (fail_htlc_backwards_internal): first resolution wins -/
@@ -68,6 +72,15 @@ def mgrBlock (s : St) (h : Nat) (x : BbuExit) : St × List Act :=
     let s1 := { s with inCell := false }
     let r := if x.returnsTimedOut then failUp s1 else (s1, [])
     if x.isOk then (r.1, .cellTimeout :: r.2) else ({ r.1 with downOpen := false }, .cellTimeout :: r.2 ++ [.chanClosed])
+  else (s, [])
+
+/-- (round 5) mirrors ChannelManager::do_chain_event, `pending_intercepted_htlcs.retain`: a held intercepted forward is dropped
+    and failed backwards as soon as the translated `interceptTimedOut` holds at the announced height (runs for every
+    announced height, after the channels' best_block_updated, whatever the monitors do) -/
+def mgrIntercept (s : St) (h : Nat) : St × List Act :=
+  if s.intercepted && interceptTimedOut h s.outCltv then
+    let r := failUp { s with intercepted := false }
+    (r.1, .interceptTimeout :: r.2)
   else (s, [])
 
 /-- transactions matched in the block -/
@@ -120,7 +133,9 @@ def onPreimage (s : St) : St × List Act :=
 
 def nodeStep (s : St) : Ev → St × List Act
   | .block h x cConf tConf =>
-    let r1 := mgrBlock s h x
+    let r0 := mgrBlock s h x
+    let ri := mgrIntercept r0.1 h
+    let r1 : St × List Act := (ri.1, r0.2 ++ ri.2)
     if monitorProcessesHeight h s.monBest then
       let r2 := monDown r1.1 h cConf tConf
       let r3 := monUp r2.1 h
@@ -128,6 +143,7 @@ def nodeStep (s : St) : Ev → St × List Act
     else r1
   | .preimage => onPreimage s
   | .downCommitted => if s.inCell then ({ s with inCell := false, outLive := true }, []) else (s, [])
+  | .released => if s.intercepted then ({ s with intercepted := false, inCell := true }, []) else (s, [])
 
 /-- height stamp of an event for the log -/
 def evHeight (s : St) : Ev → Nat
